@@ -105,18 +105,18 @@ def opSnmG (a : Args) : Except String String := do
   let z : F := ((0 : Nat) : F)
   let n := tr.length
   if y.size ≠ n ∨ w.size ≠ n ∨ p.size ≠ n ∨ psi.size ≠ D ∨ vs.any (·.size ≠ n) then throw "bad-arg:lengths"
-  let rows : List (Snm.SRow F) := (List.range n).map fun i =>
+  let rows : List (SnmR.SRow F) := (List.range n).map fun i =>
     ⟨tr.getD i false, y.getD i z, w.getD i z, p.getD i z, fun k => (vs.getD k #[]).getD i z⟩
   let rows := match (← optArg a "flip" parseBool) with
-    | some true => rows.map Snm.flipA
+    | some true => rows.map SnmR.flipA
     | _ => rows
   let rows ← match (← optArg a "yc" (Carrier.parse (F := F))), (← optArg a "yd" (Carrier.parse (F := F))) with
-    | some c, some d => pure (rows.map (Snm.affY c d))
+    | some c, some d => pure (rows.map (SnmR.affY c d))
     | none, none => pure rows
     | _, _ => throw "bad-arg:yc-yd"
   let ψ := fun j => psi.getD j z
   let ks := List.range D
-  pure s!"ok resid={showList sh (ks.map (Snm.resid rows D ψ))} rha={showList sh (ks.map (Snm.rha rows))} psi1={sh (Snm.solve1 rows)} mods={showList sh (ks.map (Snm.modScore rows))}"
+  pure s!"ok resid={showList sh (ks.map (SnmR.resid rows D ψ))} rha={showList sh (ks.map (SnmR.rha rows))} psi1={sh (SnmR.solve1 rows)} mods={showList sh (ks.map (SnmR.modScore rows))}"
 
 /-- GLM score equations: design columns `x0= x1= …` (`p=` of them), `y= mu= w=`; optional `m=` (p×p, row-major)
     re-expresses the design through the model's `reparamRow` first -/
